@@ -31,7 +31,7 @@ def rule_py_delegation(rep, modrel, classname, floor=10):
         if not isinstance(f, ast.FunctionDef):
             continue
         pos, kwo, var, kw = pf.params_of(f)
-        if not pos:
+        if not pos and not (var and kw):
             continue
         ncalls = 0
         for c in ast.walk(f):
@@ -45,6 +45,17 @@ def rule_py_delegation(rep, modrel, classname, floor=10):
             if expected is None:
                 continue
             if any(isinstance(a, ast.Starred) for a in c.args) or any(k.arg is None for k in c.keywords):
+                recv = ast.unparse(c.func.value) if isinstance(c.func, ast.Attribute) else ""
+                if recv.endswith("._ext"):
+                    # callers are written against the Content binding of the same name: the extension class behind _ext must accept the same keywords
+                    from . import pybind
+                    bs = pybind.bindings()
+                    mine = {a for b in bs if b.file.endswith("partition.cpp") and b.name == f.name for a in b.args}
+                    theirs = {a for b in bs if b.file.endswith("content.cpp") and b.cls == "make_Content" and b.name == f.name for a in b.args}
+                    missing = sorted(theirs - mine)
+                    r.check(not missing, "%s.%s@star" % (classname, f.name), m.where(c), "%s.%s forwards *args/**kwargs to %s.%s, whose binding in src/python/partition.cpp lacks the keyword(s) %s that Content.%s accepts: "
+                            "a caller written against a layout (ak.to_json) raises TypeError for a partitioned array" % (classname, f.name, recv, f.name, missing, f.name), detail="extension binding accepts the keywords of Content.%s" % f.name)
+                    continue
                 r.ok("%s.%s@star" % (classname, f.name), "forwards *args/**kwargs")
                 continue
             ncalls += 1
@@ -474,7 +485,7 @@ def rule_py_callback_layout(rep, modules=None, floor=25):
 
 def rule_py_call_signature(rep, floor=900):
     r = rep.rule("FORWARD.py-call-signature", "every call inside src/awkward that resolves statically to a module-level function of the package (same-module name, ak._util.f, ak.operations.<m>.f, ak.nplike.f, "
-                 "ak.partition.f, or an exported ak.f defined once under operations/) matches that function's signature: no unknown keyword, no surplus positional argument, no missing required parameter", floor=floor)
+                 "ak.partition.f, or an exported ak.f defined once under operations/) matches that function's signature: no unknown keyword, no surplus positional argument, no missing required parameter, and a purely variadic f(*xs) is not handed a local list as its single argument", floor=floor)
     mods = {rel: pf.module(rel) for rel in pf.all_modules() if "generated_parser" not in rel}
     sigs, byname = {}, {}
     for rel, m in mods.items():
@@ -505,6 +516,13 @@ def rule_py_call_signature(rep, floor=900):
         return None
     cnt = {}
     for rel, m in sorted(mods.items()):
+        listlocals = {}
+        for fd in ast.walk(m.tree):
+            if isinstance(fd, ast.FunctionDef):
+                ls = {t.id for s_ in ast.walk(fd) if isinstance(s_, ast.Assign) and isinstance(s_.value, (ast.List, ast.ListComp)) for t in s_.targets if isinstance(t, ast.Name)}
+                for c_ in ast.walk(fd):
+                    if isinstance(c_, ast.Call):
+                        listlocals[id(c_)] = ls
         for call in ast.walk(m.tree):
             if not isinstance(call, ast.Call):
                 continue
@@ -535,6 +553,11 @@ def rule_py_call_signature(rep, floor=900):
             cnt[k0] = cnt.get(k0, 0) + 1
             key = "%s->%s#%d" % (rel, target.name, cnt[k0])
             msg = mismatch(call, target)
+            ta = target.args
+            if msg is None and ta.vararg and not ta.args and not ta.kwonlyargs and len(call.args) == 1 and not call.keywords:
+                a0 = call.args[0]
+                if isinstance(a0, (ast.List, ast.ListComp)) or (isinstance(a0, ast.Name) and a0.id in listlocals.get(id(call), ())):
+                    msg = "the list `%s` is passed as ONE argument to the variadic %s(*%s); every other call unpacks it" % (ast.unparse(a0)[:30], target.name, ta.vararg.arg)
             r.check(msg is None, key, m.where(call), "call `%s(...)` in %s does not match the definition of %s: %s" % (ast.unparse(call.func), rel, target.name, msg), detail="signature matches")
     return r.done()
 
@@ -660,7 +683,8 @@ _BUILTIN_ARITY = {"hash": (1, 1), "len": (1, 1), "id": (1, 1), "isinstance": (2,
 def rule_py_call_shape(rep, floor=1500):
     r = rep.rule("SHAPE.py-call", "(a) every call of a fixed-arity builtin (hash, len, isinstance, getattr, ...) that the module does not rebind has an admissible number of arguments; "
                  "(b) `self.m(self, ...)` is never written for a plain method m of the enclosing class (the receiver is already bound: the call is a TypeError); "
-                 "(c) a recursive function that forwards its own parameter p as p at three or more recursive calls forwards it at all of them: a constant (or the default) at one site makes the result depend on where the recursion passed", floor=floor)
+                 "(c) a recursive function that forwards its own parameter p as p at three or more recursive calls forwards it at all of them: a constant (or the default) at one site makes the result depend on where the recursion passed; "
+                 "(d) a generator expression handed to a function of the package only reaches code that iterates it once - the callee (followed through two levels of calls, by name) neither subscripts it nor takes its len() unless it first materialises it with list()/tuple()", floor=floor)
     rtable = load_table("py_recursion_exceptions.json")
     for rel in [x for x in pf.all_modules() if "generated_parser" not in x]:
         m = pf.module(rel)
@@ -730,6 +754,72 @@ def rule_py_call_shape(rep, floor=1500):
                 for c, v in other:
                     r.fail(key, m.where(c), "%s in %s forwards its parameter %s at %d recursive calls but passes %s at `%s`" % (
                         fd.name, rel, p, len(fw), "the default" if v is None else ast.unparse(v), ast.unparse(c)[:60]))
+    # (d) generator expressions handed to package functions
+    defs = {}
+    for rel in [x for x in pf.all_modules() if "generated_parser" not in x]:
+        t = pf.module(rel).tree
+        for cls in ast.walk(t):
+            if isinstance(cls, ast.ClassDef):
+                for fd in cls.body:
+                    if isinstance(fd, ast.FunctionDef):
+                        defs.setdefault(cls.name if fd.name == "__init__" else fd.name, []).append((rel, fd, True))
+        for fd in t.body:
+            if isinstance(fd, ast.FunctionDef):
+                defs.setdefault(fd.name, []).append((rel, fd, False))
+
+    def materialised(fd, p):
+        return any(isinstance(s_, ast.Assign) and any(isinstance(t_, ast.Name) and t_.id == p for t_ in s_.targets) and isinstance(s_.value, ast.Call)
+                   and isinstance(s_.value.func, ast.Name) and s_.value.func.id in ("list", "tuple") for s_ in ast.walk(fd))
+
+    def indexed(fd, p, depth=0):
+        if materialised(fd, p):
+            return None
+        for n in ast.walk(fd):
+            if isinstance(n, ast.Subscript) and isinstance(n.value, ast.Name) and n.value.id == p:
+                return "%s subscripts it (`%s`)" % (fd.name, ast.unparse(n)[:30])
+            if isinstance(n, ast.Call) and isinstance(n.func, ast.Name) and n.func.id == "len" and n.args and isinstance(n.args[0], ast.Name) and n.args[0].id == p:
+                return "%s takes len(%s)" % (fd.name, p)
+        if depth < 2:
+            for n in ast.walk(fd):
+                if isinstance(n, ast.Call):
+                    nm = n.func.attr if isinstance(n.func, ast.Attribute) else n.func.id if isinstance(n.func, ast.Name) else None
+                    for i, a in enumerate(n.args):
+                        if isinstance(a, ast.Name) and a.id == p and nm in defs:
+                            for rel2, fd2, meth in defs[nm]:
+                                ps = [x.arg for x in fd2.args.args][1 if meth else 0:]
+                                if i < len(ps):
+                                    w = indexed(fd2, ps[i], depth + 1)
+                                    if w:
+                                        return "%s passes it on as %s(%s): %s" % (fd.name, nm, ps[i], w)
+        return None
+    import builtins
+    for rel in [x for x in pf.all_modules() if "generated_parser" not in x]:
+        m = pf.module(rel)
+        k = 0
+        for c in ast.walk(m.tree):
+            if not isinstance(c, ast.Call):
+                continue
+            nm = c.func.attr if isinstance(c.func, ast.Attribute) else c.func.id if isinstance(c.func, ast.Name) else None
+            if nm not in defs:
+                continue
+            if isinstance(c.func, ast.Name):
+                cands = [(r2, f2, me) for r2, f2, me in defs[nm] if (r2 == rel and not me) or f2.name == "__init__"]
+            elif hasattr(builtins, nm):
+                cands = []   # np.any(...), nplike.sum(...): NumPy-like namespaces, not the package function of that name
+            else:
+                cands = defs[nm]
+            if not cands:
+                continue
+            for i, a in enumerate(c.args):
+                if not isinstance(a, ast.GeneratorExp):
+                    continue
+                k += 1
+                why = None
+                for rel2, fd2, meth in cands:
+                    ps = [x.arg for x in fd2.args.args][1 if meth else 0:]
+                    if i < len(ps):
+                        why = why or indexed(fd2, ps[i])
+                r.check(why is None, "%s:%s(<generator>)#%d" % (rel, nm, k), m.where(c), "%s passes a generator expression to %s, but %s: a generator can be iterated once and neither sliced nor measured" % (rel, nm, why), detail="generator argument is only iterated")
     return r.done()
 
 
@@ -757,4 +847,161 @@ def rule_py_dead_attr(rep, floor=20):
             r.ok(a)
         else:
             r.fail(a, ws[0][1], "attribute `%s` is stored (%s) but never read anywhere in src/awkward" % (a, ", ".join(w for _, w in ws[:3])))
+    return r.done()
+
+
+_NP_INT = {"np.int8", "np.int16", "np.int32", "np.int64", "np.uint8", "np.uint16", "np.uint32", "np.uint64", "np.integer", "np.intc", "np.intp", "np.longlong", "np.ulonglong", "int", "bool"}
+_NP_FLT = {"np.float16", "np.float32", "np.float64", "np.floating", "float", "np.longdouble"}
+_NP_CPX = {"np.complex64", "np.complex128", "np.complexfloating", "complex"}
+_SUBSUMES = {
+    "numbers.Integral": _NP_INT, "np.integer": _NP_INT - {"int", "bool"},
+    "numbers.Real": _NP_INT | _NP_FLT | {"numbers.Integral"}, "np.floating": _NP_FLT - {"float"},
+    "numbers.Complex": _NP_INT | _NP_FLT | _NP_CPX | {"numbers.Integral", "numbers.Real"},
+    "numbers.Number": _NP_INT | _NP_FLT | _NP_CPX | {"numbers.Integral", "numbers.Real", "numbers.Complex"},
+    "np.number": (_NP_INT | _NP_FLT | _NP_CPX) - {"int", "bool", "float", "complex"},
+    "np.generic": {x for x in (_NP_INT | _NP_FLT | _NP_CPX) if x.startswith("np.")} | {"np.bool_", "np.datetime64", "np.timedelta64", "np.number", "np.integer", "np.floating"},
+    "Iterable": {"list", "tuple", "dict", "set", "str", "bytes", "np.ndarray"}, "collections.abc.Iterable": {"list", "tuple", "dict", "set", "str", "bytes", "np.ndarray"},
+}
+
+
+def _isinstance_exact(test):
+    """(subject text, [dotted class names]) when test is exactly isinstance(subject, C | (C, ...)); else None"""
+    if not (isinstance(test, ast.Call) and isinstance(test.func, ast.Name) and test.func.id == "isinstance" and len(test.args) == 2):
+        return None
+    a = test.args[1]
+    elts = a.elts if isinstance(a, ast.Tuple) else [a]
+    names = []
+    for e in elts:
+        d = pf.dotted(e) if isinstance(e, (ast.Attribute, ast.Name)) else None
+        if d is None:
+            return None
+        names.append(d.replace("numpy.", "np."))
+    return ast.unparse(test.args[0]), names
+
+
+def rule_py_isinstance_shadow(rep, floor=100):
+    r = rep.rule("DEAD.py-isinstance-shadow", "in an if/elif chain of isinstance tests on one subject, no class tested in a later arm is already captured by an earlier unconditional arm - the same class again, "
+                 "or a concrete class behind its abstract base (numbers.Integral captures every np.int*/np.uint*, numbers.Real every np.float*): the later arm is dead for that class and the earlier, coarser answer is given", floor=floor)
+    table = load_table("py_shadow_exceptions.json")
+    for rel in [x for x in pf.all_modules() if "generated_parser" not in x]:
+        m = pf.module(rel)
+        done = set()
+        for q, f in sorted(m.funcs.items(), key=lambda kv: -len(kv[0])):    # innermost qualified name first: a chain is reported once, under the function that owns it
+            k = 0
+            for first, tests, has_else, _ in _chains(f):
+                if id(first) in done:
+                    continue
+                done.add(id(first))
+                earlier = {}    # subject -> [(class, test node)]
+                for t in tests:
+                    # positive conjuncts of this arm
+                    conj = t.values if isinstance(t, ast.BoolOp) and isinstance(t.op, ast.And) else [t]
+                    for c in conj:
+                        ie = _isinstance_exact(c)
+                        if not ie:
+                            continue
+                        subj, names = ie
+                        k += 1
+                        dead = []
+                        for n_ in names:
+                            for e_, _t in earlier.get(subj, []):
+                                if n_ == e_ or n_ in _SUBSUMES.get(e_, ()):
+                                    dead.append((n_, e_))
+                                    break
+                        tk = "%s:%s:%s:%s" % (rel, q, subj, ",".join(sorted({d for d, _ in dead})))
+                        if dead and tk in table:
+                            r.excepted(tk, table[tk])
+                            r.ok(tk)
+                            continue
+                        r.check(not dead, "%s:%s:%s#%d" % (rel, q, subj, k), m.where(c), "in %s (%s) the arm `isinstance(%s, ...)` tests %s after an earlier arm already captured %s: for these classes the arm can never be taken" % (
+                            q, rel, subj, sorted({d for d, _ in dead}), sorted({e for _, e in dead})), detail="no class shadowed by an earlier arm")
+                    ie = _isinstance_exact(t)
+                    if ie:    # only an unconditional isinstance arm captures its classes for the rest of the chain
+                        for n_ in ie[1]:
+                            earlier.setdefault(ie[0], []).append((n_, t))
+    return r.done()
+
+
+def rule_py_none_guard(rep, floor=200):
+    r = rep.rule("DEAD.py-none-guard", "a test `v is None` / `v is not None` is never applied to a local whose reaching definition in the same block is an arithmetic, comparison or display expression: "
+                 "such a value is never None - either the guard is dead and the None case (`None - None`) has already raised on the line above, or the wrong variable is tested", floor=floor)
+    never = (ast.BinOp, ast.Compare, ast.List, ast.Tuple, ast.Dict, ast.ListComp, ast.JoinedStr)
+    for rel in [x for x in pf.all_modules() if "generated_parser" not in x]:
+        m = pf.module(rel)
+        k = 0
+        for fd in ast.walk(m.tree):
+            if not isinstance(fd, ast.FunctionDef):
+                continue
+            for n in ast.walk(fd):
+                for fld in ("body", "orelse", "finalbody"):
+                    b = getattr(n, fld, None)
+                    if not (isinstance(b, list) and b and isinstance(b[0], ast.stmt)):
+                        continue
+                    last = {}
+                    for st in b:
+                        hdr = [st.test] if isinstance(st, (ast.If, ast.While)) else [st] if not hasattr(st, "body") else []
+                        for h in hdr:
+                            for c in ast.walk(h):
+                                if (isinstance(c, ast.Compare) and len(c.ops) == 1 and isinstance(c.ops[0], (ast.Is, ast.IsNot)) and isinstance(c.comparators[0], ast.Constant)
+                                        and c.comparators[0].value is None and isinstance(c.left, ast.Name)):
+                                    k += 1
+                                    d = last.get(c.left.id)
+                                    r.check(d is None, "%s:%s:%s#%d" % (rel, fd.name, c.left.id, k), m.where(c), "%s in %s tests `%s` although %s was just assigned `%s`, which is never None: if an operand was None the expression has already raised" % (
+                                        fd.name, rel, ast.unparse(c), c.left.id, ast.unparse(d)[:60] if d is not None else ""), detail="guarded value may be None")
+                        if isinstance(st, ast.Assign) and len(st.targets) == 1 and isinstance(st.targets[0], ast.Name) and isinstance(st.value, never):
+                            last[st.targets[0].id] = st.value
+                        else:
+                            for x in ast.walk(st):
+                                if isinstance(x, ast.Name) and isinstance(x.ctx, ast.Store):
+                                    last.pop(x.id, None)
+    return r.done()
+
+
+def rule_py_keepdims_recombine(rep, floor=3):
+    r = rep.rule("REDUCE.py-keepdims-recombine", "in operations/reducers.py a statistic `v = R(a, ..., axis=axis, keepdims=K)` that is later combined arithmetically with the unreduced array a (`a - v`, `f(a) / v`) "
+                 "is computed with keepdims=True: with the caller's keepdims the reduced dimension disappears and Awkward's left-broadcasting pairs the statistic with the wrong elements for every axis but the innermost", floor=floor)
+    m = pf.module("operations/reducers.py")
+    reducers = {fd.name for fd in m.tree.body if isinstance(fd, ast.FunctionDef)}
+    for fd in m.tree.body:
+        if not isinstance(fd, ast.FunctionDef):
+            continue
+        stats = {}   # var -> (call, array root names)
+        derived = {}  # local -> root array names it is computed from elementwise (expx = exp(x))
+        params = {a.arg for a in fd.args.args}
+        for s_ in ast.walk(fd):
+            if not (isinstance(s_, ast.Assign) and len(s_.targets) == 1 and isinstance(s_.targets[0], ast.Name)):
+                continue
+            v, val = s_.targets[0].id, s_.value
+            if isinstance(val, ast.Call) and isinstance(val.func, ast.Name) and val.func.id in reducers and val.args and any(k.arg == "axis" for k in val.keywords):
+                roots = {n.id for n in ast.walk(val.args[0]) if isinstance(n, ast.Name)}
+                stats[v] = (val, roots)
+            elif isinstance(val, (ast.BinOp, ast.Call)):
+                derived[v] = {n.id for n in ast.walk(val) if isinstance(n, ast.Name) and n.id in params}
+
+        def roots_of(e):
+            out = set()
+            for n in ast.walk(e):
+                if isinstance(n, ast.Name):
+                    out.add(n.id)
+                    out |= derived.get(n.id, set())
+            return out
+        k = 0
+        for b in ast.walk(fd):
+            if isinstance(b, ast.BinOp):
+                pair = (b.left, b.right)
+            elif isinstance(b, ast.Call) and isinstance(b.func, ast.Attribute) and b.func.attr in ("true_divide", "divide", "subtract", "add", "multiply", "floor_divide") and len(b.args) == 2:
+                pair = tuple(b.args)
+            else:
+                continue
+            for side, other in (pair, pair[::-1]):
+                if isinstance(side, ast.Name) and side.id in stats:
+                    call, roots = stats[side.id]
+                    oroots = roots_of(other)
+                    if not (oroots & (roots | {x for r0 in roots for x in derived.get(r0, ())})) or any(isinstance(n, ast.Name) and n.id in stats for n in ast.walk(other)):
+                        continue   # statistic combined with another statistic (sumwx / sumw), not with the unreduced array
+                    k += 1
+                    kd = [kw.value for kw in call.keywords if kw.arg == "keepdims"]
+                    good = bool(kd) and isinstance(kd[0], ast.Constant) and kd[0].value is True
+                    r.check(good, "%s:%s#%d" % (fd.name, side.id, k), m.where(b), "%s combines `%s` with the unreduced array in `%s`, but %s was computed with keepdims=%s: for axis != -1 the statistic of one group is paired with the elements of another" % (
+                        fd.name, side.id, ast.unparse(b)[:50], side.id, ast.unparse(kd[0]) if kd else "<default False>"), detail="statistic keeps the reduced dimension")
     return r.done()
